@@ -222,6 +222,92 @@ fn value_families(thorough: bool) -> Vec<(String, MetadataWrapper)> {
     out.push(("steps y,x".into(), MetadataWrapper::Layout(world::layout(vec![s2, s1.clone()], vec![], &[], base_t))));
     out.push(("steps x".into(), MetadataWrapper::Layout(world::layout(vec![s1], vec![], &[], base_t))));
     out.push(("inspect x".into(), MetadataWrapper::Layout(world::layout(vec![], vec![Inspection::new("x")], &[], base_t))));
+    // repeated elements: two steps / inspections of one name, a key id listed twice, an argument twice
+    {
+        let x1 = world::step("x", 1, &[]);
+        let x2 = world::step("x", 2, &[]);
+        let y = world::step("y", 1, &[]);
+        for (n, steps) in [("x1,x2", vec![x1.clone(), x2.clone()]), ("x2,x1", vec![x2.clone(), x1.clone()]), ("x1,x1", vec![x1.clone(), x1.clone()]), ("x1,x1,x1", vec![x1.clone(), x1.clone(), x1.clone()]), ("x2", vec![x2.clone()]), ("x1,y,x1", vec![x1.clone(), y.clone(), x1.clone()]), ("x1,y", vec![x1.clone(), y.clone()]), ("y,x1", vec![y.clone(), x1.clone()]), ("x1,x2,y", vec![x1.clone(), x2.clone(), y.clone()]), ("x1,y,x2", vec![x1.clone(), y.clone(), x2.clone()])] {
+            out.push((format!("repeated steps {n}"), MetadataWrapper::Layout(world::layout(steps, vec![], &[], base_t))));
+        }
+        let i1 = Inspection::new("i").run(vec!["a".to_string()].into());
+        let i2 = Inspection::new("i").run(vec!["b".to_string()].into());
+        for (n, insp) in [("i1", vec![i1.clone()]), ("i1,i1", vec![i1.clone(), i1.clone()]), ("i1,i2", vec![i1.clone(), i2.clone()]), ("i2,i1", vec![i2.clone(), i1.clone()]), ("i2", vec![i2.clone()])] {
+            out.push((format!("repeated inspections {n}"), MetadataWrapper::Layout(world::layout(vec![], insp, &[], base_t))));
+        }
+        for (n, pk) in [("a,a", vec![a, a]), ("a,b,a", vec![a, b, a]), ("a,a,b", vec![a, a, b]), ("b,a,a", vec![b, a, a]), ("a,a,a", vec![a, a, a])] {
+            out.push((format!("repeated pubkeys {n}"), MetadataWrapper::Layout(world::layout(vec![world::step("s", 1, &pk)], vec![], &[a, b], base_t))));
+        }
+        for (n, rules) in [("r", vec![ArtifactRule::Allow("a".into())]), ("r,r", vec![ArtifactRule::Allow("a".into()), ArtifactRule::Allow("a".into())]), ("r,q,r", vec![ArtifactRule::Allow("a".into()), ArtifactRule::Disallow("*".into()), ArtifactRule::Allow("a".into())]), ("r,q", vec![ArtifactRule::Allow("a".into()), ArtifactRule::Disallow("*".into())])] {
+            let mut st = world::step("s", 1, &[]);
+            for r in rules {
+                st = st.add_expected_product(r);
+            }
+            out.push((format!("repeated rules {n}"), MetadataWrapper::Layout(world::layout(vec![st], vec![], &[], base_t))));
+        }
+        out.push(("repeated args a,a".into(), link_struct("n", &["a", "a"], None, &[], &[], None, None, None)));
+        out.push(("repeated args a".into(), link_struct("n", &["a"], None, &[], &[], None, None, None)));
+        out.push(("repeated args a,a,a".into(), link_struct("n", &["a", "a", "a"], None, &[], &[], None, None, None)));
+    }
+    // digest shapes: lengths 0 / 1 / 20 / 31 / 32 / 33 / 64, values that differ only in the first or
+    // last byte, in the second half, or only in one entry of a two-algorithm map
+    {
+        use in_toto::crypto::{HashAlgorithm, HashValue};
+        use in_toto::models::TargetDescription;
+        let base64: Vec<u8> = util::sha512(&[1]);
+        let mut values: Vec<(String, Vec<u8>)> = vec![];
+        for len in [0usize, 1, 20, 31, 32, 33, 63, 64] {
+            values.push((format!("len{len}"), base64[..len].to_vec()));
+        }
+        for (n, pos) in [("first", 0usize), ("byte31", 31), ("byte32", 32), ("last", 63)] {
+            let mut b = base64.clone();
+            b[pos] ^= 1;
+            values.push((format!("64-differs-at-{n}"), b));
+        }
+        let one = |alg: HashAlgorithm, v: &[u8]| -> TargetDescription {
+            let mut d = TargetDescription::new();
+            d.insert(alg, HashValue::new(v.to_vec()));
+            d
+        };
+        let link_of = |d: TargetDescription| -> MetadataWrapper { MetadataWrapper::Link(LinkMetadataBuilder::new().name("n".into()).products([(world::vpath("a"), d)].into_iter().collect()).build().unwrap()) };
+        for (n, v) in &values {
+            out.push((format!("digest sha256 {n}"), link_of(one(HashAlgorithm::Sha256, v))));
+            out.push((format!("digest sha512 {n}"), link_of(one(HashAlgorithm::Sha512, v))));
+            let mut two = one(HashAlgorithm::Sha256, &world::h(1));
+            two.insert(HashAlgorithm::Sha512, HashValue::new(v.clone()));
+            out.push((format!("digest sha256 fixed + sha512 {n}"), link_of(two)));
+            let mut two = one(HashAlgorithm::Sha512, &base64);
+            two.insert(HashAlgorithm::Sha256, HashValue::new(v.clone()));
+            out.push((format!("digest sha512 fixed + sha256 {n}"), link_of(two)));
+        }
+    }
+    // key-table entries that differ only in the declared scheme or in the hash-algorithm list
+    {
+        use in_toto::crypto::PublicKey;
+        let raw = a.public().as_bytes().to_vec();
+        let variants: Vec<(&str, PublicKey)> = vec![
+            ("pkcs8 (default list)", a.public().clone()),
+            ("raw (no list)", PublicKey::from_ed25519(raw.clone()).unwrap()),
+            ("raw + [sha256]", PublicKey::from_ed25519_with_keyid_hash_algorithms(raw.clone(), Some(vec!["sha256".to_string()])).unwrap()),
+            ("raw + [sha512, sha256]", PublicKey::from_ed25519_with_keyid_hash_algorithms(raw.clone(), Some(vec!["sha512".to_string(), "sha256".to_string()])).unwrap()),
+            ("raw + []", PublicKey::from_ed25519_with_keyid_hash_algorithms(raw, Some(vec![])).unwrap()),
+            ("rsa pss-sha256", keys::get("rsa256a").public().clone()),
+            ("rsa pss-sha512 (same modulus)", keys::get("rsa512a").public().clone()),
+        ];
+        for (n, k) in variants {
+            let mut l = world::layout(vec![], vec![], &[], base_t);
+            l.keys.insert(k.key_id().clone(), k);
+            out.push((format!("key table entry {n}"), MetadataWrapper::Layout(l)));
+        }
+    }
+    // long strings: captured output and the like
+    for s in c10::long_strings().into_iter().filter(|s| s.chars().count() <= if thorough { 70001 } else { 1025 }) {
+        let head: String = s.chars().take(3).collect();
+        let n = s.chars().count();
+        let tail: String = s.chars().skip(n - 2).collect();
+        let odd: String = s.chars().skip(n / 2).take(1).collect();
+        out.push((format!("long stdout {n} {head:?}..{odd:?}..{tail:?}"), link_struct("n", &[], None, &[], &[], Some(&s), None, None)));
+    }
     out
 }
 
@@ -416,6 +502,67 @@ fn layout_edits(signed: &Value) -> Vec<(String, Value)> {
         v["inspect"].as_array_mut().unwrap().push(json!({"_type": "inspection", "name": "insp", "expected_materials": [], "expected_products": [], "run": ["true"]}));
         true
     });
+    // inside an existing inspection
+    let n_insp = signed["inspect"].as_array().map(|a| a.len()).unwrap_or(0);
+    for i in 0..n_insp {
+        push(&format!("inspect{i}.name"), &|v| {
+            v["inspect"][i]["name"] = json!("renamed");
+            true
+        });
+        push(&format!("inspect{i}.run"), &|v| {
+            v["inspect"][i]["run"] = json!(["sh", "-c", "echo pwned"]);
+            true
+        });
+        push(&format!("inspect{i}.run+arg"), &|v| {
+            v["inspect"][i]["run"].as_array_mut().unwrap().push(json!("x"));
+            true
+        });
+        push(&format!("inspect{i}.run-emptied"), &|v| {
+            v["inspect"][i]["run"] = json!([]);
+            true
+        });
+        push(&format!("inspect{i}._type"), &|v| {
+            v["inspect"][i]["_type"] = json!("inspectionx");
+            true
+        });
+        for field in ["expected_materials", "expected_products"] {
+            push(&format!("inspect{i}.{field}+DISALLOW"), &|v| {
+                v["inspect"][i][field].as_array_mut().unwrap().push(json!(["DISALLOW", "*"]));
+                true
+            });
+        }
+    }
+    push("inspect-last", &|v| v["inspect"].as_array_mut().unwrap().pop().is_some());
+    push("inspect+copy", &|v| {
+        let Some(s) = v["inspect"].get(0).cloned() else { return false };
+        v["inspect"].as_array_mut().unwrap().push(s);
+        true
+    });
+    // inside a key-table entry, under an unchanged label
+    for kid in signed["keys"].as_object().unwrap().keys().cloned().collect::<Vec<_>>() {
+        let short = kid[..8].to_string();
+        push(&format!("keys[{short}].scheme"), &|v| {
+            let cur = v["keys"][&kid]["scheme"].as_str().unwrap_or("").to_string();
+            v["keys"][&kid]["scheme"] = json!(if cur == "rsassa-pss-sha256" { "rsassa-pss-sha512" } else if cur == "rsassa-pss-sha512" { "rsassa-pss-sha256" } else { "ecdsa-sha2-nistp256" });
+            true
+        });
+        push(&format!("keys[{short}].hash-algorithms-removed"), &|v| v["keys"][&kid].as_object_mut().unwrap().remove("keyid_hash_algorithms").is_some());
+        push(&format!("keys[{short}].hash-algorithms-reordered"), &|v| {
+            v["keys"][&kid]["keyid_hash_algorithms"] = json!(["sha512", "sha256"]);
+            true
+        });
+        push(&format!("keys[{short}].public=other-material"), &|v| {
+            if v["keys"][&kid]["keytype"] != "ed25519" {
+                return false;
+            }
+            v["keys"][&kid]["keyval"]["public"] = json!(util::hex(x.public().as_bytes()));
+            true
+        });
+        push(&format!("keys[{short}].keyid-member"), &|v| {
+            v["keys"][&kid]["keyid"] = json!("f".repeat(64));
+            true
+        });
+    }
     push("keys+X", &|v| {
         v["keys"][x.id()] = serde_json::to_value(x.public()).unwrap();
         true
@@ -567,7 +714,7 @@ pub fn run(tier: Tier) -> i32 {
     }
     let _ = KeyId::from_str;
     c.acc = acc;
-    c.rule = "(a) metadata values from the field alphabets (every string field x critical and wide strings, splits of one string across adjacent fields, structural near-collisions, thresholds x pubkey lists x key tables, expiry seconds, every rule form in every position) signed with one Ed25519 key: unequal values must give different signatures; canonical encodings of the C10 value grammar pairwise distinct; (b) every single-field edit (incl. every digest byte and every rule token) of a signed layout and a signed link, for 5 signer sets, must fail verification and pass again when undone. distinct_nontrivial = distinct signed byte strings + distinct canonical encodings + edits that change the parsed value".into();
+    c.rule = "(a) metadata values from the field alphabets (every string field x critical and wide strings, splits of one string across adjacent fields, structural near-collisions, thresholds x pubkey lists x key tables, expiry seconds, every rule form in every position, repeated steps / inspections / key ids / rules / arguments, digests of 8 lengths and with single-byte differences in one- and two-algorithm maps, key-table entries over one key material with 5 hash-algorithm lists / 2 schemes, strings of 15..1025 (70001) characters) signed with one Ed25519 key: unequal values must give different signatures; canonical encodings of the C10 value grammar pairwise distinct; (b) every single-field edit (incl. every digest byte and every rule token) of a signed layout and a signed link, for 5 signer sets, must fail verification and pass again when undone. distinct_nontrivial = distinct signed byte strings + distinct canonical encodings + edits that change the parsed value".into();
     c.bound_completed = format!("critical strings <= {}, wide strings <= {}, split words <= {}", if tier.thorough() { 4 } else { 3 }, if tier.thorough() { 2 } else { 1 }, if tier.thorough() { 4 } else { 3 });
     c.assume("Ed25519 signing by a fixed key is deterministic and collision-free on distinct messages, so equal signatures <=> equal signed bytes");
     c.assume("unequal = PartialEq on the parsed metadata (expiry enumerated at whole seconds)");
